@@ -31,7 +31,7 @@ type Control struct {
 	Properties []string `json:"properties"`
 	Kind       string   `json:"kind"` // positive | negative
 	Edits      []Edit   `json:"edits,omitempty"`
-	Patch      string   `json:"patch,omitempty"` // unified diff (relative to /verif) applied with patch -p1
+	Patch      string   `json:"patch,omitempty"`      // unified diff (relative to /verif) applied with patch -p1
 	ExpectKey  string   `json:"expect_key,omitempty"` // positive: this obligation must be a hit (prefix match allowed with trailing *)
 	Why        string   `json:"why"`
 }
